@@ -339,6 +339,61 @@ func checkC10(c *Ctx) {
 		})
 	}
 
+	// upsert: the ON CONFLICT UPDATE expansion never assigns the primary key (it is the conflict target)
+	{
+		ctc := p.FuncDecl(pkgCallbacks, "ConvertToCreateValues")
+		info := ctc.Pkg.TypesInfo
+		ocT := p.Named(pkgClause, "OnConflict")
+		duF := p.Field(ocT, "DoUpdates")
+		n := 0
+		ast.Inspect(ctc.Body, func(x ast.Node) bool {
+			as, ok := x.(*ast.AssignStmt)
+			if !ok || len(as.Lhs) != 1 || len(as.Rhs) != 1 {
+				return true
+			}
+			// direct appends of an assignment, and appends to the local column accumulator that feeds AssignmentColumns
+			isDU := fieldSel(info, as.Lhs[0], duF)
+			ce, isCall := unparen(as.Rhs[0]).(*ast.CallExpr)
+			if !isCall {
+				return true
+			}
+			fid, _ := ce.Fun.(*ast.Ident)
+			if fid == nil || fid.Name != "append" || ce.Ellipsis.IsValid() {
+				return true
+			}
+			inUpsert := false
+			for _, sc := range calls {
+				if sc.f == ctc && sc.a0 == "true" && sc.a1 == "true" && sc.call.Pos() < as.Pos() {
+					inUpsert = true
+				}
+			}
+			if !inUpsert {
+				return true
+			}
+			if !isDU {
+				// the []string accumulator of updatable columns
+				tv, ok := info.Types[as.Lhs[0]]
+				if !ok {
+					return true
+				}
+				if sl, ok := tv.Type.Underlying().(*types.Slice); !ok || sl.Elem().String() != "string" {
+					return true
+				}
+			}
+			n++
+			facts, live := p.Guards(ctc, nil).At(as.Pos())
+			okf := false
+			for fc := range facts {
+				if strings.HasPrefix(fc, "F:") && strings.HasSuffix(fc, ".PrimaryKey") {
+					okf = true
+				}
+			}
+			re.Check(live && okf, ctc.Name(), "upsert assignment excludes the primary key: "+exprShort(as.Lhs[0]), as.Pos(), "under !field.PrimaryKey", "the ON CONFLICT UPDATE expansion can assign the primary key column: an upsert rewrites the key of the conflicting row")
+			return true
+		})
+		re.Check(n >= 2, ctc.Name(), "upsert expansion builds DoUpdates", ctc.Body.Pos(), "columns and auto-time assignments", "the UpdateAll expansion no longer builds DoUpdates")
+	}
+
 	// ---- C10.perm ----
 	rp := c.Rule("C10.perm", "SelectAndOmitColumns: permission tags override Select/Omit (stores of false after list processing)", 3)
 	sf := p.Src(saoc)
